@@ -23,7 +23,11 @@ MANIFEST = dict(
               'correspondences (codecs, frame histories, container both directions incl. foreign full-chain files) + save/read oracle search; '
               'round 4: fail-closed census of every use of a frame\'s pixel array with an address-map model (shape of every access path, '
               'allocation sizes, copy guards), if statements of the pixel loop as ETest chains (bluescreen formats, hand proof + 256-value '
-              'enumeration), per-pixel laws lifted to frames by induction and composed with the whole-file theorem; cross-path oracle',
+              'enumeration), per-pixel laws lifted to frames by induction and composed with the whole-file theorem; cross-path oracle; '
+              'round 5: the abstract interpretation of class Frame also follows every exit by exception (explicit raise, assert, import, '
+              'every call that can raise, partial multi-element stores) into per-method raise tables with a kernel-checked cleanliness '
+              'boolean, census of attribute stores of VTF methods, rejected-call / failing-stream oracle, one whole-property theorem over '
+              'the generated objects',
     text='Theorems in Props/C15.v, generic in the objects read from the source. Codecs (_py_vtf_readwrite.py): if the kernel-checked '
          'boolean rt_ok codec spec holds then load(save p) is exactly the documented quantisation of p for every byte-valued pixel '
          '(identity on the used channels for the 8-bit formats), every stored value is a byte; if sf_ok holds then save(load d) = d on '
@@ -45,7 +49,7 @@ MANIFEST = dict(
          'side/depth, mipmap) read() visits gets exactly the bytes save() produced for it, for any object version and written version '
          '(save(version=)), cubemap or volume; every fitting file can be encoded. Particle sheets: read_sheet(make_sheet qs) = qs for '
          'both sheet versions (version 0 keeps the first coordinate of a frame only). The premises are regenerated from '
-         'vtf.py/_py_vtf_readwrite.py on every run and checked in the kernel (253 obligations); the generated codecs are compared with '
+         'vtf.py/_py_vtf_readwrite.py on every run and checked in the kernel (291 obligations); the generated codecs are compared with '
          'the Python codecs, the generated Frame effect tables are run by Coq on symbolic pixels against histories of operations on the '
          'implementation, implementation-saved files are decoded by the Coq container model and model-encoded files (also files that '
          'declare all mipmap levels, as other tools write them) are read by VTF.read; whole files are saved and read back over all '
@@ -2464,7 +2468,15 @@ def run(ck: Ck) -> None:
                'through each of 9 (getitem, buffer index by index, bytes(memoryview), raw array, to_PIL, to_tkinter PPM, two wx '
                'converters on a stand-in module, save+read), plus out-of-range probes, allocation lengths, copy_from of frames of '
                'other sizes with the same pixel count; non-trivial = non-square. DXT1 block layout: six shapes of solid 4x4 blocks '
-               'through copy_from and the lazy load.')
+               'through copy_from and the lazy load. '
+               'rejected calls (round 5): 14 calls a Frame must reject (wrong-length / RGB / non-buffer source, frame of another size, '
+               'format without decoder, rescale_from an unrelated size, index out of range, 3-tuple, channel 999 / not a number, '
+               'fill(256), plus the self-copy) and 4 a VTF must reject (version 7.9, volumetric as 7.1, missing key, a stream that fails '
+               'after 200 bytes) on levels 0, 1 and the last of a lazily read 32x16 file in four states (in the file, loaded, cleared, '
+               'rescaled while in the file): what the frame shows; the same calls inside random histories of the other operations '
+               '(1-2 rejected calls each) plus fixed ones: what save() stores; 13 rejected VTF-level calls on a 7.4 file with '
+               'resources, sheet and thumbnail: the next save() byte for byte; streams that fail once (seek, read, short read) '
+               'during load() / pixel access / save(); distinct by (state, level, call) resp. operation list.')
     ck.trusted.append('Fmt/VtfPixelExpr.v specification tuples spec_* / canon_* (hand-written from the docstrings; their meaning as functions '
                       'is restated by c15_spec_* theorems) and checks/c15.py ref_quantise (independent Python restatement used by the oracle)')
     ck.trusted.append('translate/c15_frame.py tables D_COQ/S_COQ and READERS, translate/c15_container.py tables SAVE_FIELD/READ_FIELD/READ_ATTR '
@@ -2482,7 +2494,11 @@ def run(ck: Ck) -> None:
         'from-the-end convention and stay inside the array',
         'a frame is stored as the concatenation of its pixels\' stored bytes (encode_frame): the codec translator accepts only per-pixel '
         'loops / strided slice copies with offsets inside one pixel',
-        'a frame is not passed to its own copy_from/rescale_from (no aliasing of self and the parameter frame)',
+        'a frame is not passed to its own copy_from/rescale_from in the model (no aliasing of self and the parameter frame); '
+        'frame.copy_from(frame) on frames in every state is covered by the rejected-call oracle only',
+        'exits by exception: a call either raises before it has changed the frame or does not raise (the decoders and scale_down '
+        'validate sizes before they write); the calls that cannot raise are isinstance(x, T) and getattr(x, name, default) only; '
+        'MemoryError / KeyboardInterrupt between two statements are not modelled',
         'encode_file/decode_file and make_sheet/read_sheet are hand-written models of VTF.save/VTF.read and SheetSequence.make_data/'
         'from_resource: the whole-file and sheet theorems are about the models; their tie to the source is the regenerated sites, flag '
         'trees, side lists, loop nests and event order (instance obligations) plus the two-way container correspondence of every run',
@@ -2500,6 +2516,10 @@ def run(ck: Ck) -> None:
         cod, _ = c15_pixel.codecs_ir()
     built = ok1 and ok2 and ok3 and ok4 and ok5 and ck.build(['Props/C15.vo'])
     if built:
+        # the two facts about generated FORMULAS (premises pixel_offsets_spec / scale_strides_spec of the theorems): their ring / lia
+        # proofs are compiled here, one named obligation each
+        ck.build(['Fmt/VtfGenPixelOffsetIs4TimesYWidthPlusX.vo'])
+        ck.build(['Fmt/VtfGenScaleDownStridesSelectThe2x2ParentBlock.vo'])
         codecs_done = corr_codecs(ck, cod)     # six coqc processes in the background while the stages below run
         obs: dict[str, str] = {}
         for name in sorted(set(SPECS) | set(cod) | set(BLUESCREEN)):
@@ -2637,6 +2657,8 @@ def run(ck: Ck) -> None:
             ck.explain('instance:whole_array_')
             ck.explain('instance:every_pixel_')
             ck.explain('translate:VtfAccess_gen')
+        if k.startswith(('frame-getitem', 'frame-setitem', 'pixel-path-')):
+            ck.explain('build:Fmt/VtfGenPixelOffset')
         if k.startswith('frame-getitem'):
             ck.explain('instance:getitem_')
             ck.explain('instance:every_pixel_path')
